@@ -195,6 +195,20 @@ fn run_case(base: Instant, c: &Case, dump: bool) -> (u64, Vec<(String, String)>,
             script.push((c.at + 4, Op::PathChanged(SERVER)));
         }
         let done = drive(&mut p, &script, 60_000, Duration::from_secs(900));
+        if done && c.wl == Wl::W13 {
+            // datagrams are not part of "done": let the queue drain and the network go quiet
+            let limit = p.w.t + Duration::from_secs(60);
+            let mut n = 0;
+            while n < 6000 {
+                match p.w.next_event() {
+                    Some((at, _)) if at <= limit => {
+                        p.w.step();
+                        n += 1;
+                    }
+                    _ => break,
+                }
+            }
+        }
         (p, done)
     });
     match r {
@@ -206,6 +220,18 @@ fn run_case(base: Instant, c: &Case, dump: bool) -> (u64, Vec<(String, String)>,
             let (mut v, probes) = size_violations(&p, &cfg);
             for (s, w) in integrity(&p) {
                 v.push((format!("integrity:{s}"), w));
+            }
+            // nothing may be left sitting in the datagram send queue once everything else is done and
+            // the network is quiet (a datagram that no longer fits the path must have been dropped)
+            if done {
+                for (node, who) in [(CLIENT, "client"), (SERVER, "server")] {
+                    for sl in p.w.nodes[node].conns.values() {
+                        let pr = sl.conn.verif_probe();
+                        if !sl.conn.is_closed() && pr.datagram_outgoing > 0 && pr.in_flight_ack_eliciting == 0 && p.w.net.is_empty() {
+                            v.push(("datagram-stuck-in-send-queue".into(), format!("{who}: {} datagrams ({} bytes) are still queued although nothing is in flight and the MTU is {}", pr.datagram_outgoing, pr.datagram_outgoing_total, sl.conn.current_mtu())));
+                        }
+                    }
+                }
             }
             if !done {
                 let d = crate::scen::diagnose(&p);
@@ -235,7 +261,7 @@ pub fn main(args: &Args) -> ! {
     let steps: Vec<u64> = if thorough { (0..160).step_by(2).collect() } else { vec![0, 6, 12, 18, 24, 30, 40, 50, 60, 80, 100, 140] };
     let mut cases = vec![];
     for c in cfgs() {
-        for wl in [Wl::W1, Wl::W5, Wl::W6] {
+        for wl in [Wl::W1, Wl::W5, Wl::W6, Wl::W13] {
 
             for &m0 in &ms {
                 // a link narrower than the configured floor is outside the property's premise
